@@ -30,7 +30,8 @@ MALFORMED_NAMES = [
     "x" * 127 + "é" + "y" * 40, "x" * 126 + "é" + "y" * 40, "x" * 63 + "é" * 40, "x" * 255 + "✓" + "y" * 10,
     "projects/p/topics" + "é" * 70, "nope" + "✓" * 100,
 ]
-ODD_VALID_IDS = ["a", "a/", "/a", "a/b", "é", "x y", "-", "t" * 40, "topics", "subscriptions/x"]
+ODD_VALID_IDS = ["a", "a/", "/a", "a/b", "é", "x y", "-", "t" * 40, "topics", "subscriptions/x", "back\\slash", "q'uote", "d\"q",
+                 "tab\tx", "\u0301x", "nl\nx"]
 
 # the last one exercises every base64 digit class incl. the two (62, 63) in which the alphabets differ
 DATA_POOL = [b"", b"a", b"hello", b"\x00\xff\x10", b"x" * 40, "hé".encode(), b"{\"k\":1}",
@@ -617,6 +618,11 @@ def malformed_cases(seed, n, prefix="bad"):
                                                rng.choice(["~", hx("ftp://x"), hx(""), hx("nothttp"), hx("http://ok")])))
                 # whatever was created must be usable (an out-of-range number must not poison it)
                 ops += ["PULL %s 1 1" % hx(nm), "GS " + hx(nm)]
+                if rng.random() < 0.4:
+                    # a well-formed name in ANOTHER project than the topic's: rejected, and nothing is left behind
+                    xp = sname("q2", "xp%d" % rng.randrange(3))
+                    ops += ["CS %s %s 10 ~" % (hx(xp), hx(T)), "GS " + hx(xp), "LS %s 0 -" % hx("projects/q2"),
+                            "STATS " + hx(xp)]
             elif k == 4:
                 ops.append("GS " + hx(bad))
             elif k == 5:
@@ -808,7 +814,7 @@ def abandon_cases(ks=(1, 2, 3, 4, 6), ys=(0, 1, 4), fills=(0, 16, 24), prefix="a
     out = []
     n = 0
     EP = hx("http://127.0.0.1:9/push")
-    for kind in ("CS", "CSP", "DS", "DSW", "DST", "PUB", "PUBS", "PULL", "ACK", "DT"):
+    for kind in ("CS", "CSP", "DS", "DSW", "DST", "PUB", "PUBS", "PULL", "ACK", "ACKN", "DT"):
         for k in ks:
             for y in ys:
                 for fill in fills:
@@ -847,6 +853,11 @@ def abandon_cases(ks=(1, 2, 3, 4, 6), ys=(0, 1, 4), fills=(0, 16, 24), prefix="a
                     elif kind == "ACK":
                         xc = "XC ACK %d %d %d %s %s" % (k, y, fill, hx(Sn), hx("1"))
                         eq = "ACK %s 1 %s" % (hx(Sn), hx("1"))
+                    elif kind == "ACKN":
+                        # one Acknowledge naming 300 deliveries: all of them go, or none
+                        ops += ["PUBN %s 300 78" % hx(T), "PULL %s 1000 1" % hx(Sn), "STATS " + hx(Sn)]
+                        xc = "XC ACKN %d %d %d %s 2 300" % (k, y, fill, hx(Sn))
+                        eq = "ACK %s 300 %s" % (hx(Sn), " ".join(hx(str(v)) for v in range(2, 302)))
                     else:
                         xc = "XC DT %d %d %d %s" % (k, y, fill, hx(T))
                         eq = "DT " + hx(T)
@@ -1685,3 +1696,98 @@ def push_slow_cases(prefix="pslow"):
            "EP 0 3 slow200 200 200", "PUB %s 1 %s 0" % (T, hx("m0")), "ROUND", "STATS " + P0, "ROUND", "STATS " + P0,
            "ROUND", "STATS " + P0]
     return [(prefix, ops)]
+
+
+def push_delete_cases(prefix="pdel"):
+    """The real push loop in the middle of a page of n messages towards an endpoint that does not answer, when the
+    subscription is deleted over gRPC: once DeleteSubscription has answered no further message is POSTed."""
+    T, P0 = hx(tname("p", "t")), hx(sname("p", "push0"))
+    cases = []
+    for n, after, outcome in ((40, 3, "hang"), (40, 1, "hang"), (60, 10, "hang"), (40, 3, "slow200"), (30, 2, "reset")):
+        ops = ["MODE push", "SEED 1", "CT " + T, "CS %s %s 60 %s" % (P0, T, hx("http://ep/e0")),
+               "EP 0 %d %s" % (n, " ".join([outcome] * n)),
+               "PUB %s %d %s" % (T, n, " ".join("%s 0" % hx("m%d" % i) for i in range(n))),
+               "LOOPDEL 20 %s %d 400" % (P0, after), "GS " + P0, "REG"]
+        cases.append(("%s-%d-%d-%s" % (prefix, n, after, outcome), ops))
+    return cases
+
+
+def backed_up_stream_cases(prefix="bus"):
+    """A StreamingPull handler whose client has stopped reading (held by the harness at the hand-over of a batch, XS/XQ,
+    never polled again) next to a consumer that really waits (a blocked Pull, or a stream that is read): a message
+    published then must reach the waiting consumer.  Ack deadline 600 s: nothing else can wake anybody."""
+    T, Sn = hx(tname("p", "t")), hx(sname("p", "s"))
+    cases = []
+    for first in (1, 2, 3):
+        for waiter in ("pull", "stream", "two"):
+            for later in (1, 2):
+                for prewait in (0, 1):
+                    ops = ["SEED %d" % (first * 7 + later), "CT " + T, "CS %s %s 600 ~" % (Sn, T), "XS 1 %s 100" % Sn]
+                    if prewait:      # the handler finds nothing and really waits before the first message arrives
+                        ops += ["XQ 1", "XT", "XQ 1"]
+                    for i in range(first):
+                        ops += ["PUB %s 1 %s 0" % (T, hx("a%d" % i)), "XQ 1", "XT", "XQ 1"]
+                    if waiter == "stream":
+                        ops += ["SO 5 %s 10 0 600" % Sn, "SR 5"]
+                        obs = ["SR 5"]
+                    elif waiter == "pull":
+                        ops += ["BG 901 PULL %s 5 0" % Sn, "Q"]
+                        obs = ["JOIN 901"]
+                    else:
+                        ops += ["BG 901 PULL %s 5 0" % Sn, "Q", "BG 902 PULL %s 5 0" % Sn, "Q"]
+                        obs = ["JOIN 901", "JOIN 902"]
+                    ops += ["PUB %s %d %s" % (T, later, " ".join("%s 0" % hx("b%d" % i) for i in range(later))), "Q", "STATS " + Sn]
+                    ops += obs + ["STATS " + Sn]
+                    cases.append(("%s-%d-%s-%d-w%d" % (prefix, first, waiter, later, prewait), ops))
+    return cases
+
+
+def publish_vs_delete_topic_cases(ks=range(0, 10), prefix="pvd"):
+    """A Publish racing the DeleteTopic of its topic (either may be handled first; the subscription outlives the topic
+    with its backlog): whatever ids the racing Publish returns, no id is ever issued twice."""
+    T, Sn = hx(tname("p", "t")), hx(sname("p", "s"))
+    cases = []
+    for k in ks:
+        for first in ("dt", "pub"):
+            ops = ["SEED %d" % k, "CT " + T, "CS %s %s 10 ~" % (Sn, T), "PUB %s 2 61 0 62 0" % T]
+            a, b = "BG 900 DT " + T, "BG 901 PUB %s 2 63 0 64 0" % T
+            x, y = (a, b) if first == "dt" else (b, a)
+            ops += [x] + (["YIELD %d" % k] if k else []) + [y, "BG 902 PUB %s 1 65 0" % T, "Q", "JOIN 900", "JOIN 901", "JOIN 902",
+                                                           "PULL %s 10 1" % Sn, "GT " + T]
+            cases.append(("%s-%s-k%d" % (prefix, first, k), ops))
+    return cases
+
+
+def delete_both_cases(ks=range(0, 8), prefix="db"):
+    """DeleteTopic and DeleteSubscription of one of its subscriptions in flight together, with a stream and a blocked
+    Pull on the subscription: once both have answered (and a retried DeleteSubscription has), the subscription is gone
+    and its consumers are released."""
+    T, Sn = hx(tname("p", "t")), hx(sname("p", "s"))
+    cases = []
+    for k in ks:
+        for first in ("dt", "ds"):
+            ops = ["SEED %d" % k, "CT " + T, "CS %s %s 10 ~" % (Sn, T), "SO 1 %s 10 0 10" % Sn, "SR 1",
+                   "BG 100 PULL %s 5 0" % Sn, "Q", "JOIN 100"]
+            a, b = "BG 900 DT " + T, "BG 901 DS " + Sn
+            x, y = (a, b) if first == "dt" else (b, a)
+            ops += [x] + (["YIELD %d" % k] if k else []) + [y, "Q", "JOIN 900", "JOIN 901", "DS " + Sn, "GS " + Sn, "SR 1", "JOIN 100",
+                                                           "LS %s 0 -" % hx("projects/p")]
+            cases.append(("%s-%s-k%d" % (prefix, first, k), ops))
+    return cases
+
+
+def ordering_key_cases(prefix="ok"):
+    """Publish requests whose messages carry ordering keys in every order (none, equal, sorted, reversed, mixed with
+    key-less ones): the i-th id answers the i-th message and first deliveries follow the request order."""
+    import itertools
+    T, Sn = hx(tname("p", "t")), hx(sname("p", "s"))
+    keysets = [["zebra", "", "apple", "zebra", "mango"], ["b", "a"], ["", "k"], ["k", ""], ["a", "a", "a"], ["a", "b", "c"],
+               ["c", "b", "a"], ["é", "z", "A", ""]]
+    cases = []
+    for n, keys in enumerate(keysets):
+        msgs = " ".join("%s %s" % (hx("m%d" % j), hx(k)) for j, k in enumerate(keys))
+        ops = ["SEED %d" % n, "CT " + T, "CS %s %s 10 ~" % (Sn, T), "PUB %s 2 %s 0 %s 0" % (T, hx("w0"), hx("w1")),
+               "PUBK %s %d %s" % (T, len(keys), msgs), "PULL %s 100 1" % Sn, "PUBK %s %d %s" % (T, len(keys), msgs),
+               "PULL %s 2 1" % Sn, "PULL %s 100 1" % Sn]
+        cases.append(("%s-%d" % (prefix, n), ops))
+    return cases
